@@ -33,7 +33,7 @@ def check_case(ctx, v, params, kind, delivery, origin):
     ctx.count("frames_read", len(frames))
     ctx.count("cases_" + origin)
     ctx.count("kind_" + kind)
-    ctx.count("delivery_" + delivery)
+    ctx.count("delivery_" + delivery.split("|")[0])
     if src.reads - src.eos_returns != len(frames):
         ctx.violation("source-not-read-to-end", {"case": T.case_of(v, params, kind, delivery), "reads": src.reads, "frames": len(frames)})
     for key, detail in inv.c01(frames, tokens):
@@ -60,7 +60,7 @@ def inconclusive(merged, tier):
     out = []
     if c.get("tokens_observed", 0) == 0:
         out.append("no token was ever observed")
-    for k in ("cases_exhaustive", "cases_exhaustive_init", "cases_recipe", "cases_random"):
+    for k in ("cases_exhaustive", "cases_exhaustive_init", "cases_recipe", "cases_random", "cases_reuse"):
         if c.get(k, 0) == 0:
             out.append(f"workload class {k} never ran")
     return out
